@@ -192,6 +192,16 @@ func init() {
 					if sysWrite(s, a, v) {
 						emit(map[string]interface{}{"k": "wr", "a": a, "v": int(v)})
 					}
+					if r.Intn(3) == 0 && idx < len(arr(cls)) {
+						// the host changes the cell directly, then the very same store is issued again: it must land again
+						w2 := v ^ byte(1+r.Intn(255))
+						arr(cls)[idx] = w2
+						emit(map[string]interface{}{"k": "poke", "cls": cls, "idx": idx, "v": int(w2)})
+						if sysWrite(s, a, v) {
+							emit(map[string]interface{}{"k": "wr", "a": a, "v": int(v)})
+						}
+						emit(map[string]interface{}{"k": "peek", "cls": cls, "idx": idx, "v": int(arr(cls)[idx])})
+					}
 				case 3:
 					if idx < len(arr(cls)) {
 						v := byte(r.Intn(256))
